@@ -45,6 +45,22 @@ func VerifC02Pool() {
 	tracked := false // does the client track the host, and with which recorded check-in
 	recorded := t
 	for k := 0; k < steps; k++ {
+		if verifapi.Param("reconnects", 1) == 1 && verifapi.Bool(fmt.Sprint("reconnect", k)) {
+			// the client goes away for a while and connects again: billing restarts at the connect
+			away := verifapi.Dur(fmt.Sprint("away", k))
+			verifapi.Assume(away >= 0)
+			verifapi.Assume(away < 100000000000)
+			last = last.Add(away)
+			verifapi.SetNow(last)
+			db.UpdateNodePeers(store.NodeID(hid), nil, 0) // the host keeps checking in meanwhile
+			if _, err := VerifConnect(p, &VerifHost{Name: "c", Addr: "192.0.2.7:1"}, cid, isFull, ""); err != nil {
+				if min != nil {
+					return
+				}
+				verifapi.Unreachable("c02.pool.reconnect")
+				return
+			}
+		}
 		dt := verifapi.Dur(fmt.Sprint("dt", k))
 		verifapi.Assume(dt >= 0)
 		verifapi.Assume(dt < 100000000000) // the host stays inside the 120s window
